@@ -8,6 +8,7 @@ import (
 	"math/big"
 	"os"
 	"reflect"
+	"sort"
 	"strconv"
 	"strings"
 	"time"
@@ -263,6 +264,11 @@ func c05CondReplay(i int, raw json.RawMessage) Result {
 		if r := c05DataProbes(); r != nil {
 			return *r
 		}
+		if os.Getenv("VERIF_TRACE") == "" {
+			if r := c05RangeAfterEarlyExit(); r != nil {
+				return *r
+			}
+		}
 	}
 	truthy := true
 	switch v.V.T {
@@ -381,6 +387,135 @@ func c04HeldValues() *Result {
 						return &Result{Sig: map[string]interface{}{"kind": "held", "form": name[1:4], "shape": kname, "ops": e}, Key: "probe",
 							Observed: got, Expected: want,
 							Detail: fmt.Sprintf("%s with vs=%v ws=%v (execution %d) rendered %q (err %v); evaluated one at a time the expression yields %q", text.String(), vs, ws, round, got, err, want)}
+					}
+				}
+			}
+		}
+	}
+	return nil
+}
+
+type c05Counter struct{ n, i int }
+
+func (c *c05Counter) Range() (reflect.Value, reflect.Value, bool) {
+	if c.i >= c.n {
+		return reflect.Value{}, reflect.Value{}, true
+	}
+	c.i++
+	return reflect.ValueOf(c.i - 1), reflect.ValueOf(fmt.Sprint("r", c.i-1)), false
+}
+func (c *c05Counter) ProvidesIndex() bool { return true }
+
+// c05RangeAfterEarlyExit: history probe. A range renders its body once per element of ITS subject (else exactly when it
+// has none), whatever ranges ran before on the same Set and however they ended: exhausted, left by {{return}} in the
+// first/second iteration, left by a runtime error (caught by try, or failing the execution), left by a panicking function.
+func c05RangeAfterEarlyExit() *Result {
+	type subj struct {
+		kind string
+		mk   func(n int) interface{}
+	}
+	subjects := []subj{
+		{"map", func(n int) interface{} {
+			m := map[string]string{}
+			for i := 0; i < n; i++ {
+				m[fmt.Sprint("k", n, i)] = fmt.Sprint("v", n, i)
+			}
+			return m
+		}},
+		{"slice", func(n int) interface{} {
+			s := []string{}
+			for i := 0; i < n; i++ {
+				s = append(s, fmt.Sprint("v", n, i))
+			}
+			return s
+		}},
+		{"array", func(n int) interface{} {
+			switch n {
+			case 0:
+				return [0]int{}
+			case 1:
+				return [1]int{11}
+			case 2:
+				return [2]int{21, 22}
+			}
+			return [3]int{31, 32, 33}
+		}},
+		{"int", func(n int) interface{} { return n }},
+		{"chan", func(n int) interface{} {
+			c := make(chan int, 4)
+			for i := 0; i < n; i++ {
+				c <- 100*n + i
+			}
+			close(c)
+			return c
+		}},
+		{"ranger", func(n int) interface{} { return &c05Counter{n: n} }},
+		{"string", func(n int) interface{} { return "héllo"[:[]int{0, 1, 3, 4}[n]] }},
+	}
+	leavers := map[string]string{
+		"exhaust": `{{ range k, v := m }}{{ end }}`,
+		"return1": `{{ range k, v := m }}{{ return k }}{{ end }}`,
+		"return2": `{{ n := 0 }}{{ range k, v := m }}{{ if n == 1 }}{{ return v }}{{ end }}{{ n = n + 1 }}{{ end }}`,
+		"error":   `{{ range k, v := m }}{{ v.NoSuchField.X }}{{ end }}`,
+		"try":     `{{ try }}{{ range k, v := m }}{{ boom() }}{{ end }}{{ catch }}c{{ end }}`,
+		"panic":   `{{ range k, v := m }}{{ boom() }}{{ end }}`,
+		"nested":  `{{ range k, v := m }}{{ range k2, v2 := m }}{{ return k2 }}{{ end }}{{ end }}`,
+	}
+	lnames := []string{"exhaust", "return1", "return2", "error", "try", "panic", "nested"}
+	judged := `{{ range k, v := m }}[{{ k }}={{ v }}]{{ else }}EMPTY{{ end }}`
+	for _, first := range subjects {
+		for _, second := range subjects {
+			if first.kind != second.kind && first.kind != "map" && second.kind != "map" {
+				continue
+			}
+			for _, ln := range lnames {
+				l := jet.NewInMemLoader()
+				l.Set("/first.jet", leavers[ln])
+				l.Set("/second.jet", judged)
+				set := jet.NewSet(l)
+				set.AddGlobal("boom", func() string { panic("boom") })
+				run := func(name string, m interface{}) (string, error) {
+					t, err := set.GetTemplate(name)
+					if err != nil {
+						return "", err
+					}
+					var b bytes.Buffer
+					vars := jet.VarMap{}
+					vars.Set("m", m)
+					err = safeExecute(t, &b, vars, nil)
+					return b.String(), err
+				}
+				for round := 0; round < 6; round++ {
+					n := []int{1, 0, 2, 3, 1, 0}[round]
+					// what the judged range renders on a Set without that history
+					ref := jet.NewSet(l)
+					tr, err := ref.GetTemplate("/second.jet")
+					if err != nil {
+						return nil
+					}
+					var rb bytes.Buffer
+					rv := jet.VarMap{}
+					rv.Set("m", second.mk(n))
+					if safeExecute(tr, &rb, rv, nil) != nil {
+						break
+					}
+					run("/first.jet", first.mk(3))
+					got, err := run("/second.jet", second.mk(n))
+					want := rb.String()
+					same := got == want
+					if second.kind == "map" && err == nil && len(got) == len(want) {
+						a, b := strings.Split(got, "]"), strings.Split(want, "]")
+						sort.Strings(a)
+						sort.Strings(b)
+						same = strings.Join(a, "]") == strings.Join(b, "]")
+					}
+					if n == 0 {
+						same = same && got == "EMPTY"
+					}
+					if err != nil || !same {
+						return &Result{Sig: map[string]interface{}{"kind": "range-history", "form": ln, "shape": first.kind + ">" + second.kind, "ops": ""}, Key: "probe",
+							Observed: got, Expected: want,
+							Detail: fmt.Sprintf("after %s over a %s of 3 (round %d), %s over a %s of %d rendered %q (err %v); without that history it renders %q", leavers[ln], first.kind, round, judged, second.kind, n, got, err, want)}
 					}
 				}
 			}
